@@ -67,7 +67,7 @@ def generate(rng, tier):
         vals = [rng.choice(STRINGS) for _ in range(n)]
         fn = rng.choice(["findall", "fullmatch", "match", "search", "split", "sub", "subn"])
         case.update(fn=fn, pattern=rng.choice(PATTERNS), flags=rng.choice([0, 0, re.IGNORECASE, re.MULTILINE]),
-                    repl=rng.choice(["!", "", r"<\g<0>>", "zz", r"\\", r"[\g<0>]"]), count=rng.choice([0, 0, 1, 2]))
+                    repl=rng.choice(["!", "", r"<\g<0>>", "zz", r"\\", r"[\g<0>]", "callable:upper", "callable:len"]), count=rng.choice([0, 0, 1, 2]))
     else:
         fn = rng.choice(EXTRACT) if fam == "extract" else fam
         unit = rng.choice(["s", "ms", "us", "ns"]) if fn in TIME_PARTS else rng.choice(["D", "D", "h", "m", "s", "ms", "us", "us", "ns"])
@@ -145,6 +145,10 @@ def _execute(case, edit):
     # ------------------------------------------------------------------ regex
     if fam == "regex":
         pattern, flags, repl, count = case["pattern"], case["flags"], case["repl"], case["count"]
+        if repl.startswith("callable:"):
+            # re.sub / re.subn take a function of the match object as the replacement
+            repl = {"callable:upper": (lambda m: m.group(0).upper()), "callable:len": (lambda m: str(len(m.group(0))))}[repl]
+            if fn in ("sub", "subn"): res.cls("re:callable-repl")
         # the string vector as the library's own StringDType, as NumPy's StringDType() instance, or as an old-style fixed-width array
         skind = ["str", "str", "tstr", "ustr"][len(repr(case.get("pattern"))) % 4] if form != "scalar" else "str"
         if skind == "ustr" and edit is not None:
